@@ -557,9 +557,28 @@ pub fn run_ops(ops: &[Op], opts: &RunOpts, stats: &mut Stats, hook: &mut dyn Ste
                 }
             }
         }
-        if let Some(v) = hook.after_step(&mut w, op, &env, prec.as_ref(), k) {
-            out.violation = Some(v);
-            break;
+        match catch_unwind(AssertUnwindSafe(|| hook.after_step(&mut w, op, &env, prec.as_ref(), k))) {
+            Ok(Some(v)) => {
+                out.violation = Some(v);
+                break;
+            }
+            Ok(None) => {}
+            Err(_) => {
+                // the oracle itself only calls read-only dashu operations (==, cmp, hash, accessors)
+                let p = take_panic();
+                match p {
+                    Some(p) if p.origin() == "dashu" => {
+                        out.violation = Some(Violation {
+                            class: "oracle.dashu_panic".into(),
+                            step: k,
+                            detail: format!("read-only operation panicked at {}:{}: {}", p.file(), p.line, p.msg()),
+                        });
+                    }
+                    Some(p) => out.harness_error = Some(format!("oracle panic at {}:{}: {}", p.file(), p.line, p.msg())),
+                    None => out.harness_error = Some("oracle panic (unknown)".into()),
+                }
+                break;
+            }
         }
 
         // --- event log digest, coverage signature, probes
